@@ -50,9 +50,16 @@ def parsePat (s : String) : Option Pat :=
   | 'X' :: rest => (String.ofList rest).toNat?.map .rx
   | _ => none
 
+/-- a key written `!<hex>` is a non-string ECAL key (number, …); it is kept apart by a marker character -/
+def keyOf (k : String) : Option String :=
+  if k.startsWith "!" then (hexStr (String.ofList (k.toList.drop 1))).map ("\x01" ++ ·) else hexStr k
+
+def isMarked (k : String) : Bool := k.startsWith "\x01"
+def unmark (k : String) : String := if isMarked k then String.ofList (k.toList.drop 1) else k
+
 def parseEntry (f : String → Option β) (s : String) : Option (String × β) :=
   match s.splitOn ":" with
-  | [k, v] => do pure ((← hexStr k), (← f v))
+  | [k, v] => do pure ((← keyOf k), (← f v))
   | _ => none
 
 def parseRule (s : String) : Option Rule :=
@@ -60,16 +67,17 @@ def parseRule (s : String) : Option Rule :=
   | [name, kinds, scopes, state, prio, supp] => do
     let name ← hexStr name
     let kinds ← (listOf kinds).mapM hexStr
-    let scopes ← (listOf scopes).mapM hexStr
+    let scopeNil := scopes = "N"
+    let scopes ← (if scopeNil then pure [] else (listOf scopes).mapM hexStr)
     let state ← if state = "N" then pure none else (some <$> (listOf state).mapM (parseEntry parsePat))
     let prio ← prio.toInt?
     let supp ← (listOf supp).mapM hexStr
-    pure { name, kinds := kinds.map splitDots, scope := scopes.map splitDots, state, prio, suppress := supp }
+    pure { name, kinds := kinds.map splitDots, scope := scopes.map splitDots, scopeNil, state, prio, suppress := supp }
   | _ => none
 
 def parseEvent (s : String) : Option Event :=
   match s.splitOn ";" with
-  | [name, kind, state] => do
+  | name :: kind :: state :: _ => do
     pure { name := (← hexStr name), kind := (← (listOf kind).mapM hexStr),
            state := (← (listOf state).mapM (parseEntry parseVal)) }
   | _ => none
@@ -81,6 +89,36 @@ def parseScope (s : String) : Option (List (List Seg × Bool)) :=
     | [p, b] => do
       let p ← hexStr p
       pure (if p = "" then [] else splitDots p, b = "1")
+    | _ => none
+
+/-- an event with its own cascade scope (none: inherited) and the (event, rule) that adds it (none: root event) -/
+structure EvX where
+  ev : Event
+  scope : Option (List (List Seg × Bool))
+  parent : Option (Nat × Nat)
+
+def parseEvX (s : String) : Option EvX := do
+  let ev ← parseEvent s
+  match s.splitOn ";" with
+  | [_, _, _] => pure { ev, scope := none, parent := none }
+  | [_, _, _, sc, par] =>
+    let scope ← (if sc = "-" then pure none else (parseScope sc).map some)
+    let parent ← (if par = "-" then pure none else
+      match par.splitOn "." with
+      | [a, b] => do pure (some ((← a.toNat?), (← b.toNat?)))
+      | _ => none)
+    pure { ev, scope, parent }
+  | _ => none
+
+inductive SOp where
+  | rule (i : Nat) | ev (i : Nat) | reset
+
+def parseSched (s : String) : Option (List SOp) :=
+  (listOf s).mapM fun t =>
+    match t.toList with
+    | ['R'] => some .reset
+    | 'r' :: rest => (String.ofList rest).toNat?.map .rule
+    | 'e' :: rest => (String.ofList rest).toNat?.map .ev
     | _ => none
 
 def valToken : Val → String
@@ -110,46 +148,152 @@ def outNames (o : Out (List Rule)) : String :=
   | .panic => "PANIC"
   | .hang => "HANG"
 
+/-- keep the first entry of every key -/
+def dedupKeys (l : List (String × β)) : List (String × β) :=
+  (l.foldl (fun (acc : List (String × β)) kv => if acc.any (·.1 == kv.1) then acc else kv :: acc) []).reverse
+
+/-- what the code does with non-string keys: `createRule` turns a statematch key into its text,
+    the event keeps the raw key, which a string lookup never finds -/
+def asIsRule (r : Rule) : Rule :=
+  { r with state := r.state.map fun st => dedupKeys (st.map fun kp => (unmark kp.1, kp.2)) }
+def asIsEvent (ev : Event) : Event := { ev with state := ev.state.filter fun kv => !isMarked kv.1 }
+
+def setNames (l : List String) : String :=
+  if l.isEmpty then "_" else ".".intercalate (((l.map hexName).mergeSort (fun a b => a ≤ b)).eraseDups)
+
+structure Sim where
+  p : Proc := { root := {} }
+  errs : List (Nat × Bool) := []
+  outs : List (Nat × String) := []
+  ran : List (Nat × List String) := []
+  scopes : List (Nat × Scope) := []
+  seenKinds : List (List Seg) := []
+  strata : List String := []
+  bad : Bool := false
+  evSeen : Bool := false
+
+def Sim.addStratum (s : Sim) (c : Bool) (n : String) : Sim :=
+  if c && !s.strata.contains n then { s with strata := n :: s.strata } else s
+
+/-- `keysAsIs`: non-string keys as the code treats them (else: as distinct keys, the reading of the
+    property); `burn`: a refused rule blocks its name, as the code does (else: validate first) -/
+def simulate (rx : Nat → Val → Bool) (keysAsIs burn : Bool) (ff : Bool) (failing : List Nat)
+    (rules : List Rule) (caseScope : Scope) (evs : List EvX) (ops : List SOp) : Sim :=
+  let rules := if keysAsIs then rules.map asIsRule else rules
+  ops.foldl (fun (s : Sim) op =>
+    -- the failing action belongs to the rule object handed to AddRule: it only exists if that rule was accepted
+    let failNames := failing.filterMap fun i =>
+      if alookup i s.errs == some false then rules[i]?.map (·.name) else none
+    let fails : Rule → Bool := fun r => failNames.contains r.name
+    match op with
+    | .reset => { s with p := s.p.reset, seenKinds := [] }
+    | .rule i =>
+      match rules[i]? with
+      | none => { s with bad := true }
+      | some r =>
+        let (p', err) :=
+          if !burn && (r.kinds = [] || r.scopeNil) then (({ s.p with cache := [] } : Proc), true) else s.p.addRule r
+        ({ s with p := p', errs := s.errs ++ [(i, err)], seenKinds := [] }).addStratum s.evSeen "ruleafter"
+    | .ev i =>
+      match evs[i]? with
+      | none => { s with bad := true }
+      | some e =>
+        let ev := if keysAsIs then asIsEvent e.ev else e.ev
+        let added := match e.parent with
+          | none => true
+          | some (j, ri) => match rules[ri]?, alookup j s.ran with
+            | some r, some names => names.contains r.name
+            | _, _ => false
+        let sc := match e.scope with
+          | some defs => Scope.build defs
+          | none => match e.parent with
+            | some (j, _) => (alookup j s.scopes).getD caseScope
+            | none => caseScope
+        if !added then { s with outs := s.outs ++ [(i, "T*/M_/K*/X_")], ran := (i, []) :: s.ran, scopes := (i, sc) :: s.scopes }
+        else
+          let root := s.p.root
+          let t := root.isTriggering ev
+          let m : Out (List Rule) := root.matchEv rx ev
+          let ar := s.p.addEvent rx sc ev
+          let res : Option (Out (List Rule)) := ar.1
+          let p' : Proc := ar.2
+          let full : List Rule := match res with | some (.ok l) => l | _ => []
+          let exec : List Rule := runRules ff fails full
+          let x := match res with
+            | some (.ok _) => names (exec.map Rule.name)
+            | some .panic => "PANIC"
+            | some .hang => "HANG"
+            | none => "_"
+          let specL := Spec.firesList rx root.indexed sc.isAllowed ev
+          let specOK := match res with
+            | some (.ok l) => names (l.map Rule.name) == names specL
+            | none => specL.isEmpty
+            | _ => false
+          let ms := match m with | .ok l => setNames (l.map Rule.name) | .panic => "PANIC" | .hang => "HANG"
+          let tok := if x == "_" then "T*/M" ++ ms ++ "/K*/X_"
+            else "T" ++ bit t ++ "/M" ++ ms ++ "/K" ++ bit res.isSome ++ "/X" ++ x
+          -- which clause decided something in this case
+          let kindOKs : List Rule := root.indexed.filter (Spec.kindOK · ev)
+          let stOKs := kindOKs.filter (Spec.stateOK rx · ev)
+          let scOKs := stOKs.filter (Spec.scopeOK sc.isAllowed ·)
+          let s := { s with p := p', outs := s.outs ++ [(i, tok)], ran := (i, exec.map Rule.name) :: s.ran,
+                            scopes := (i, sc) :: s.scopes, bad := s.bad || !specOK, evSeen := true }
+          let s := s.addStratum (!kindOKs.isEmpty) "kind"
+          let s := s.addStratum (stOKs.length < kindOKs.length) "state"
+          let s := s.addStratum (scOKs.length < stOKs.length) "scope"
+          let s := s.addStratum (specL.length < scOKs.length) "suppression"
+          let s := s.addStratum (kindOKs.any fun (r : Rule) => r.kinds.countP (Spec.patMatch · ev.kind) > 1) "dedupe"
+          let s := s.addStratum ((kindOKs.filter (fun (r : Rule) => r.state.isSome)).length > 63) "spill"
+          let s := s.addStratum (s.seenKinds.contains ev.kind) "cachehit"
+          let s := s.addStratum (exec.length < full.length) "failstop"
+          let s := s.addStratum (!exec.isEmpty) "fires"
+          let s := s.addStratum e.parent.isSome "child"
+          { s with seenKinds := ev.kind :: s.seenKinds }) {}
+
+def render (ecal : Bool) (nRules nEvs : Nat) (s : Sim) : String :=
+  let errs := (List.range nRules).map fun i => (alookup i s.errs).getD false
+  let outs := (List.range nEvs).map fun i => (alookup i s.outs).getD "NOT-RUN"
+  let res :=
+    if ecal then
+      if errs.any id then "ERR-SINK"
+      else "E" ++ String.join (outs.map fun o => " " ++ (match o.splitOn "/X" with | [_, x] => "X" ++ x | _ => o))
+    else "a=" ++ (if errs.isEmpty then "_" else String.join (errs.map bit)) ++ String.join (outs.map (" " ++ ·))
+  (if s.bad then "MODEL-DEVIATES-FROM-SPEC " else "") ++ res
+
 def runCase (payload : String) : String :=
   let fs := payload.splitOn " "
   match field fs "r", field fs "s", field fs "e", field fs "x" with
   | some r, some s, some e, some x =>
     match (if r = "_" then some [] else (r.splitOn "|").mapM parseRule), parseScope s,
-          (if e = "_" then some [] else (e.splitOn "|").mapM parseEvent), parseTable x with
+          (if e = "_" then some [] else (e.splitOn "|").mapM parseEvX), parseTable x with
     | some rules, some defs, some evs, some tab =>
       -- a missing table entry must not go unnoticed
-      let missing := evs.any fun ev => rules.any fun r => (r.state.getD []).any fun kp =>
-        match kp.2, alookup kp.1 ev.state with
+      let missing := evs.any fun e => rules.any fun r => (r.state.getD []).any fun kp =>
+        match kp.2, alookup (unmark kp.1) (e.ev.state.map fun kv => (unmark kv.1, kv.2)) with
         | .rx id, some v => (alookup (id, valToken v) tab).isNone
         | _, _ => false
       if missing then "MISSING-REGEX-ENTRY" else
       let rx : Nat → Val → Bool := fun id v => (alookup (id, valToken v) tab).getD false
-      -- AddRule one by one
-      let (root, errs) := rules.foldl (fun (acc : Root × List Bool) r =>
-        let (rt, err) := acc.1.addRule r; (rt, acc.2 ++ [err])) (({} : Root), [])
-      let sc := Scope.build defs
-      let step := fun (acc : Proc × List String × Bool × Bool) (ev : Event) =>
-        let (p, outs, nt, bad) := acc
-        let t := root.isTriggering ev
-        let m := root.matchEv rx ev
-        let (res, p') := p.addEvent rx sc ev
-        let x := match res with | some o => outNames o | none => "_"
-        -- cross-check of the model against the executable specification
-        let specX := names (Spec.firesList rx root.indexed sc.isAllowed ev)
-        let specOK := match res with
-          | some (.ok _) => x == specX
-          | none => specX == "_"
-          | _ => false
-        let kindHit := root.indexed.any (Spec.kindOK · ev)
-        (p', outs ++ ["T" ++ bit t ++ "/M" ++ outNames m ++ "/K" ++ bit res.isSome ++ "/X" ++ x],
-          nt || kindHit, bad || !specOK)
-      let (_, outs, nt, bad) := evs.foldl step (({ root := root } : Proc), [], false, false)
       let ecal := field fs "l" == some "e"
-      let res := if ecal then
-          "E" ++ String.join (outs.map fun o => " " ++ (match o.splitOn "/X" with | [_, x] => "X" ++ x | _ => o))
-        else "a=" ++ (if errs.isEmpty then "_" else String.join (errs.map bit)) ++
-        String.join (outs.map (" " ++ ·))
-      (if bad then "MODEL-DEVIATES-FROM-SPEC " else "") ++ res ++ (if nt then "\tnt=1" else "")
+      let ff := match field fs "f" with | some v => v == "1" | none => ecal
+      let failing := match field fs "g" with | some g => (listOf g).filterMap String.toNat? | none => []
+      let defaultOps := (List.range rules.length).map SOp.rule ++ (List.range evs.length).map SOp.ev
+      let ops := match field fs "z" with | some z => (parseSched z).getD defaultOps | none => defaultOps
+      let sc := Scope.build defs
+      let run := fun (keysAsIs burn : Bool) => simulate rx keysAsIs burn ff failing rules sc evs ops
+      let base := run true true
+      let res := render ecal rules.length evs.length base
+      -- a sink whose statematch has a non-string key cannot mean what it says (`createRule` turns the key
+      -- into its text, `Rule.StateMatch` has string keys): the property is kept by refusing the declaration
+      let markedRule := rules.any fun r => (r.state.getD []).any fun kp => isMarked kp.1
+      let specKeys := if markedRule then "ERR-SINK" else res
+      let specBurn := render ecal rules.length evs.length (run true false)
+      let attrs :=
+        if specKeys != res then "\tkf=statematch-nonstring-key\tspec=" ++ specKeys
+        else if specBurn != res then "\tkf=addrule-refused-name-registered\tspec=" ++ specBurn
+        else ""
+      let st := if base.strata.isEmpty then "" else "\tst=" ++ ",".intercalate base.strata
+      res ++ (if base.strata.contains "kind" then "\tnt=1" else "") ++ st ++ attrs
     | _, _, _, _ => "bad-payload"
   | _, _, _, _ => "bad-payload"
 
